@@ -691,6 +691,12 @@ def run_check(prop, tier, seed, args):
                 print(f"  invariant={payload['invariant']} (real multiprocessing, schedule not controlled) detail: {payload['detail']}")
                 rc = 1
             elif not a["agree"]:
+                if rc == 1 or agg.violations:
+                    # a violation of this property is already on the table: on such a tree the
+                    # outcome may well depend on the schedule, and the real run had another one
+                    print(f"NOTE real anchor {a['name']} and its simulated twin differ (real={a['real']['outcome']}, "
+                          f"sim={a['sim']}): expected on a tree whose outcome depends on the schedule", file=sys.stderr)
+                    continue
                 print(f"HARNESS-ERROR process stub does not conform to real multiprocessing on anchor {a['name']}: "
                       f"real={a['real']} sim={a['sim']}", file=sys.stderr)
                 return 2
